@@ -2,7 +2,7 @@
   Driver family `tx`: MULTI/EXEC over the key-space machine (C07).
 
   reset                                          → ok
-  frame <conn> <now-ms> <watchOk 0|1> <arg-hex>… → <code reply> # <spec reply> # same|differ # <code deliveries> # <spec deliveries>
+  frame <conn> <now-ms> <watchOk 0|1 or two digits: source variant, prescribed> <arg-hex>… → <code reply> # <spec reply> # same|differ # <code deliveries> # <spec deliveries>
         (deliveries: what the service of blocked clients after this frame sends to OTHER connections,
          `<conn>=<reply> ; …` in the order served, `.` = none)
         one frame of connection <conn> through `processFrame`; the state follows `Quirks.ofSource` (the switches the translator
@@ -15,7 +15,7 @@
   dumpspec <db> <now-ms>                         → the same for the state that followed `Quirks.spec` from the start of the history
   waiters                                        → blocked clients in registration order `<conn>:<db>:<L|R>:<key-hex,…>;…` or `.`
   ext                                            → hand-over log `<conn>:<NAME>|…` or `.`
-  switches                                       → immediate names (`|`-joined or `.`) selectInExecIgnored blockingInExecNoResponse
+  switches                                       → immediate names (`|`-joined or `.`) selectInExecIgnored blockingInExecNoResponse controlArityUnchecked connCommandsUnderConnZero
 
   Replies: as drv_ks (every error is `( e )`); EXEC's array is `( a slot … )`, a slot holding the
   internal NoResponse marker is `( noresponse )`, a reply produced by pub/sub / AUTH / … is `( ext )`.
@@ -58,11 +58,16 @@ def step (st : St) (ws : List String) : St × String :=
   | "frame" :: conn :: now :: w :: args =>
     match conn.toNat?, now.toNat?, args.mapM ofHex with
     | some cid, some now, some args =>
-      if w != "0" && w != "1" then (st, "bad-op") else
-      let r : Req := { cmd := args, now := now, watchOk := w == "1" }
+      -- <watchOk>: one digit, or two: the outcome of the WATCH check for the source variant, then the prescribed one
+      -- (they differ when the source drops watches the property keeps, e.g. UNWATCH run at once inside MULTI)
+      if !(["0", "1", "00", "01", "10", "11"].contains w) then (st, "bad-op") else
+      let wc := w.take 1 == "1"
+      let wsp := (if w.length == 2 then w.drop 1 else w) == "1"
+      let r : Req := { cmd := args, now := now, watchOk := wc }
+      let rs : Req := { cmd := args, now := now, watchOk := wsp }
       let (l1, r1, d1) := Loop.frame Quirks.ofSource st.L cid r
-      let (l2, r2, d2) := Loop.frame Quirks.spec st.L cid r
-      let (p1, _, _) := Loop.frame Quirks.spec st.P cid r
+      let (l2, r2, d2) := Loop.frame Quirks.spec st.L cid rs
+      let (p1, _, _) := Loop.frame Quirks.spec st.P cid rs
       let same := l1.srv.store == l2.srv.store && l1.srv.ext == l2.srv.ext && l1.srv.conns cid == l2.srv.conns cid
         && l1.waiters == l2.waiters
       ({ L := l1, P := p1 }, showReply r1 ++ " # " ++ showReply r2 ++ " # " ++ (if same then "same" else "differ")
@@ -90,7 +95,8 @@ def step (st : St) (ws : List String) : St × String :=
   | ["waiters"] => (st, showWaiters st.L.waiters)
   | ["switches"] =>
     let q := Quirks.ofSource
-    (st, (if q.immediate.isEmpty then "." else String.intercalate "|" q.immediate) ++ " " ++ b01 q.selectInExecIgnored ++ " " ++ b01 q.blockingInExecNoResponse)
+    (st, (if q.immediate.isEmpty then "." else String.intercalate "|" q.immediate) ++ " " ++ b01 q.selectInExecIgnored ++ " " ++ b01 q.blockingInExecNoResponse
+      ++ " " ++ b01 q.controlArityUnchecked ++ " " ++ b01 q.connCommandsUnderConnZero)
   | _ => (st, "bad-op")
 
 def main : IO Unit := loop step {}
